@@ -1,5 +1,6 @@
 (* C18 - debug and quiet options change what is printed, never what is simulated. *)
 From HclV Require Import Base Expr Disasm DisasmProofs Machine MachineSpec MachineProofs DumpSpec DumpProofs Build TableSpec TableProofs.
+From HclV Require TextLevelSpec TextLevelProofs.
 From HclV Require TraceSpec TraceProofs OutputSpec OutputProofs ToolSpec ToolProofs.
 Open Scope string_scope.
 Open Scope N_scope.
@@ -174,3 +175,11 @@ Proof.
   split; [exact ToolProofs.run_result_option_free_holds | exact ToolProofs.run_result_option_free_any_state_draft_refuted].
 Qed.
 Print Assumptions C18_run_same_result_also_on_error.
+
+(* ---- END TO END, from the program TEXT (TextLevelSpec.v / TextLevelProofs.v): the user's file (valid
+   UTF-8) after the compiled preamble, lexed with any Unicode classification, parsed with the compiled
+   tier table, built with the compiled component table; states = those reachable by loading an
+   image and stepping.  No hypothesis a user cannot check by reading the file. ------------------- *)
+Theorem C18_text_level : TextLevelSpec.stmt_text_output_options_same_state.
+Proof. exact TextLevelProofs.text_output_options_same_state_holds. Qed.
+Print Assumptions C18_text_level.
